@@ -278,6 +278,28 @@ def rule_scrollbar_parts(ctx: Ctx) -> RuleResult:
     return rr
 
 
+def rule_bar_width_floor(ctx: Ctx) -> RuleResult:
+    """'the wrapped widget is given the view width minus the bar width' - render() takes the bar width from the raw
+    attribute (`maxcol - self._scrollbar_width`), the property getter reports max(1, .).  The two only agree, and the
+    bar only has columns to be drawn in, if what is *stored* is already at least 1: every store into
+    self._scrollbar_width is max(1, ...).  Seed C20-r8b dropped the floor from the setter 'because the getter
+    clamps': after scrollbar_width = 0 the widget reported 1, rendered the child at the full width and joined a bar
+    of no columns (no scrollbar at all); a negative value made the canvas wider than the view."""
+    p = ctx.p
+    rr = RuleResult("WRITER", "C20.17", "every store into ScrollBar._scrollbar_width is floored at 1 (render() reads the raw attribute)", floor=1)
+    cls = p.cls(SB)
+    raw_reads = [short(f) for f in p.all_class_functions(cls) if any(isinstance(n, ast.Attribute) and n.attr == "_scrollbar_width" and isinstance(n.ctx, ast.Load) for n in f.own_nodes()) and not any(isinstance(c, ast.Call) and callee_name(c) == "max" and any(isinstance(y, ast.Attribute) and y.attr == "_scrollbar_width" for y in ast.walk(c)) and any(isinstance(a, ast.Constant) and a.value == 1 for a in c.args) for c in f.own_nodes())]
+    for fi in p.all_class_functions(cls):
+        for n in fi.own_nodes():
+            if isinstance(n, ast.Assign) and any(isinstance(t, ast.Attribute) and t.attr == "_scrollbar_width" for t in n.targets):
+                v = n.value
+                ok = isinstance(v, ast.Call) and callee_name(v) == "max" and any(isinstance(a, ast.Constant) and isinstance(a.value, int) and a.value >= 1 for a in v.args)
+                rr.inst(f"{short(fi)}: {norm(n, 50)}", True, {"store": f"{short(fi)}: {norm(n, 60)}", "floored_at_1": ok, "raw_readers": raw_reads})
+                if not ok and raw_reads:
+                    rr.add(finding("WRITER", fi, n, f"`{norm(n, 60)}` stores the bar width without the floor of 1 while {raw_reads} read(s) the raw attribute: with 0 the child gets the whole view width and a bar of no columns is joined on (tall content, no scrollbar), with a negative value the canvas is wider than the view - and scrollbar_width still reports 1", construct="_scrollbar_width stored without max(1, .)"))
+    return rr
+
+
 def rule_forwarding(ctx: Ctx) -> RuleResult:
     p = ctx.p
     rr = RuleResult("ORDER", "C20.4", "Scrollable.keypress sets a scroll action only when the child was not offered the key or returned it unhandled", floor=2)
@@ -596,6 +618,7 @@ def run(ctx: Ctx):
         _trim_mirror(ctx),
         fresh.run_fresh(p, "C20.7", ["urwid.canvas"], floor=30),
         inv.run_inv(p, "C20.6", floor_classes=2, floor_nontrivial=1, exceptions=INV_EXCEPTIONS, only_classes={"Scrollable", "ScrollBar"}),
+        rule_bar_width_floor(ctx),
         fwd.run_fwd(p, "C20.8", ("urwid.widget.scrollable", "urwid.widget.listbox"), floor=20, description="the scrolling protocol (get_scrollpos, rows_max, get_first_visible_pos, ...) and the renderers pass the focus flag on: the position is computed for the rendering that is shown"),
     ]
 
